@@ -8,7 +8,7 @@ sender,new_single} and NetworkDataIterator::next, against the per-call contract:
              every element pulled before it was a control element that is *absorbed* (never data).
 Callees under contract only: WatermarkFrontier::{update,reset} (unit frontier), receiver (environment),
 IterationStateLock::wait_for_update (unit state_lock)."""
-import os, sys
+import os, re, sys
 sys.path.insert(0, os.path.dirname(os.path.dirname(__file__)))
 import std_specs as S
 import shared as SH
@@ -293,7 +293,7 @@ GHOST_INIT = r'''
 '''
 LOOP_INV = r'''
             invariant
-                self.inv_core(), self.same_config(old(self)), coord == self.coord->0,
+                self.inv_core(), self.same_config(old(self)),
                 !fake ==> self.no_flush_batch_unread(),
                 self.receiver.received().len() >= old(self).receiver.received().len(),
                 self.receiver.received().take(old(self).receiver.received().len() as int) =~= old(self).receiver.received(),
@@ -345,13 +345,14 @@ def build(x):
     nxt.add_spec(NEXT_SPEC)
     nxt.text = '#[verifier::exec_allows_no_decreases_clause]\n' + nxt.text
     nxt.note('V-SPEC', 1, 'termination of Start::next is NOT verified (it blocks on the network): exec_allows_no_decreases_clause')
-    nxt.insert_after('let coord = self.coord.unwrap();', GHOST_INIT)
+    nxt.insert_at_body_start(GHOST_INIT)
+    nxt.bind('msg', r'return (\w+);')
     nxt.add_loop_spec(1, LOOP_INV)
     nxt.insert_before('if let Some((sender, ref mut inner)) = self.batch_iter {', 'let ghost unread0 = self.unread();\n            let ghost taken0 = taken;\n            ')
     nxt.insert_after('Some(item) => {', HINT_PULLED)
     nxt.insert_before('return StreamElement::Terminate;', 'proof { assert(Self::step(old(self), self, StreamElement::Terminate, taken, fake)); }   // #obl:start.step_contract.terminate\n                ')
     nxt.insert_before('return StreamElement::FlushAndRestart;', HINT_RESET + 'proof { assert(Self::step(old(self), self, StreamElement::FlushAndRestart, taken, fake)); }   // #obl:start.step_contract.flush_and_restart\n                ')
-    nxt.insert_before('return msg;', 'proof { assert(Self::step(old(self), self, msg, taken, fake)); }   // #obl:start.step_contract.element\n                ')
+    nxt.insert_before(re.compile(r'return \w+;'), 'proof { assert(Self::step(old(self), self, @{msg}, taken, fake)); }   // #obl:start.step_contract.element\n                ')
     nxt.insert_before('self.watermark_frontier.update(sender, Timestamp::MAX);', 'let ghost front_before = self.watermark_frontier.front();\n                                    ')
     nxt.insert_after('self.watermark_frontier.update(sender, Timestamp::MAX);', HINT_FR_ARM)
     nxt.insert_before('NetworkMessage::new_single(', 'proof { fake = true; }\n                            ')
